@@ -1,5 +1,6 @@
 import ShellOp.Model.Combine
 import ShellOp.Model.Backoff
+import ShellOp.Generated.Facts
 /-
 Model of the retry path: the worker loop of `TaskQueue.Start()` (task_queue.go) together with
 `ShellOperator.taskHandleHookRun` (operator.go), written as the code computes:
@@ -143,5 +144,15 @@ def repaired (version : Nat → Nat) (backoff : Nat → Nat → Nat) : Cfg :=
 /-- The code before the repair: `combineBindingContextForHook(…, t, nil)`. -/
 def unrepaired (version : Nat → Nat) (backoff : Nat → Nat → Nat) : Cfg :=
   { stopOf := fun _ => none, version, backoff }
+
+/-- The constants of `delay.go` as extracted from the source on this run. -/
+def realParams : Backoff.Params :=
+  { maxDelayNs := Facts.c04MaxDelayNs, factor := Facts.c04Factor, randomMs := Facts.c04RandomMs,
+    expCount := Facts.c04ExpCount, truncNs := Facts.c04TruncNs }
+
+/-- The `ExponentialBackoffFn` every queue is created with:
+`CalculateDelay(DefaultInitialDelayOnFailedTask, failureCount)`; `rand.Int64N(n)` is `< n`. -/
+def queueBackoff (k rnd : Nat) : Nat :=
+  Backoff.calcDelay realParams Facts.c04InitialDelayNs k (rnd % Facts.c04RandomMs)
 
 end ShellOp.Retry
